@@ -14,7 +14,7 @@ RULE = (
     "non-ASCII), (b) token soups, (c) every kind of prefix (character- and token-granular) of rendered valid "
     "programs, (d) character-level mutations of valid programs (deleted/duplicated/replaced/inserted characters, "
     "unterminated /* , unbalanced braces, indexing of lets and single-qubit aliases, no register, two registers), "
-    "handed to parse_jaqal_string (anonymous gates), parse_jaqal_string_header, parse_jaqal_string with relative "
+    "handed to parse_jaqal_string (anonymous gates, and with an injected native gate set), parse_jaqal_string_header, parse_jaqal_string with relative "
     "pulse import and run_jaqal_string (pulse modules on disk under vlib/pulses, and missing ones).  Oracle: the "
     "call returns, raises JaqalError, or raises ImportError when (and only when) the text names a pulse module that "
     "does not exist; nothing else may escape; a deterministic step budget (5000 x (len+100) line events) is "
@@ -60,7 +60,7 @@ def _valid_text(ch):
 
 def _string_case(ch):
     kind = ch.pick(["junk", "soup", "prefix-char", "prefix-token", "mutate", "mutate", "special", "missing-module"])
-    entry = ch.pick(["parse", "parse", "header", "parse-rel", "run"])
+    entry = ch.pick(["parse", "parse", "header", "parse-rel", "run", "parse-inj"])
     tokens = None
     if kind == "junk":
         n = ch.int(0, 40)
@@ -232,6 +232,9 @@ POOL_TEXTS = [
     ("run", "from .moda usepulses *\nregister q[2]\nXA q[1]\n"),
     ("run", "from vlib.pulses.modb usepulses *\nregister q[2]\nloop 2 { prepare_all; GP q[0] q[1]; measure_all }\n"),
     ("run", "from .moda usepulses *\nprepare_all\nmeasure_all\n"),
+    ("parse-inj", "register q[2]\nXA q[0]\nGP q[1]\n"),
+    ("parse-inj", "register q[2]\nXA q[0] q[1]\n"),
+    ("parse-inj", "register q[2]\nNoSuch q[0]\n"),
 ]
 
 _PRISTINE_CACHE = {}
